@@ -300,6 +300,31 @@ def install_derivations(ex):
         sb, _ = view_bits(ex_, p.st, a[1], 'salt')
         _arr, _off, ln = ex_.bytes_view(p.st, a[1])
         return [dict(value=res_ok(Buf('vec', derived('hkdf-ss-subkey', (kb, sb), None, 'hkdf'), bv64(0), ln)))]
+    def chacha_key(ex_, p, m, a, func, fr):
+        kb, karr = view_bits(ex_, p.st, a[0])
+        kk = KID.get(karr.get_id())
+        terms = (kb,) if kk is None else kk[1]
+        tagname = 'vmess-chacha' if kk is None else 'vmess-chacha(' + kk[0] + ')'
+        return one(Arr(derived(tagname, terms, 32, 'chachakey'), 'u8', 32))
+
+    def kdf16(ex_, p, m, a, func, fr):
+        kb, _karr = view_bits(ex_, p.st, a[0])
+        labels, terms = [], [kb]
+        lst = ex_.deref_all(p.st, a[1]) if isinstance(a[1], Ref) else a[1]
+        for it in getattr(lst, 'items', ()):
+            la, lo, ll = ex_.bytes_view(p.st, it)
+            n = z3.simplify(ll)
+            if not z3.is_bv_value(n):
+                raise Inconclusive('kdf16 path element of symbolic length')
+            bs = [z3.simplify(z3.Select(la, lo + bv64(i))) for i in range(n.as_long())]
+            if all(z3.is_bv_value(b) for b in bs):
+                labels.append(''.join(chr(b.as_long()) for b in bs))
+            else:
+                labels.append('*%d' % n.as_long())
+                terms.append(bits(la, lo, n.as_long()))
+        return one(Arr(derived('kdf16|' + '|'.join(labels), terms, 16, 'kdf16'), 'u8', 16))
+    ex.overrides.insert(0, (re.compile(r'(?:^|::)generate_chacha20_poly1305_key$'), chacha_key))
+    ex.overrides.insert(0, (re.compile(r'(^|::)kdf16$'), kdf16))
     ex.overrides.insert(0, (re.compile(r'(^|::)session_sub_key$'), session_sub_key))
     ex.overrides.insert(0, (re.compile(r'(^|::)hkdfsha1$'), hkdfsha1))
 
